@@ -36,6 +36,8 @@ EXPLANATION = (
     "independent parser for arbitrary inputs."
 )
 RULE_KINDS = {
+    "failure/aborts-connection": "structural", "failure/leaves-refusing-state": "structural", "failure/sync-agrees-with-async": "structural",
+    "failure/no-request-after-failed-generation": "bounded",
     "validator/token-set": "finite-exhaustive", "validator/uri-class": "finite-exhaustive", "validator/decision": "finite-exhaustive", "validator/accepts-exactly": "finite-exhaustive",
     "validator/token-nonempty": "finite-exhaustive", "chunked/empty-write-guard": "finite-exhaustive",
     "sink/": "structural", "framing/pairing": "structural", "framing/choice": "structural",
@@ -350,8 +352,164 @@ def _fe_empty_write(ctx):
                   detail="domain: write() inspects its data only for emptiness (checked); both classes enumerated on the CFG")
 
 
+# ==================================================================================================================================
+# A request whose generation failed after writeTo() was entered may have bytes on the wire: the connection must never carry another request
+# ==================================================================================================================================
+def _const_state_writes(fn):
+    """[(statement, value)] for self._state = "<CONST>" directly in fn (nested defs excluded)"""
+    return [(st, st.value.value) for st in walk_local(fn) if isinstance(st, ast.Assign) and isinstance(st.value, ast.Constant) and isinstance(st.value.value, str)
+            and any(src(t) == "self._state" for t in st.targets)]
+
+
+def _s_generation_failure(ctx):
+    """STRUCTURAL (sibling agreement of the synchronous and the asynchronous failure path of HTTP11ClientProtocol.request): the errback of the Deferred returned by writeTo aborts the
+    connection and leaves a state from which request() refuses; an exception raised by writeTo itself is routed into that very errback (or aborts by itself) and never returns the
+    protocol to the accepting state"""
+    from sa.props._lib_f import enclosing_try_handlers
+    f = ctx.func(P, "HTTP11ClientProtocol.request")
+    q = Q + "HTTP11ClientProtocol.request"
+    g = ctx.cfg(f)
+    # the state from which request() accepts: the constant its entry guard compares self._state with
+    accepting = set()
+    for t in g.ids(lambda x: x.kind == "test"):
+        e = g.node(t).ast
+        if isinstance(e, ast.Compare) and len(e.ops) == 1 and src(e.left) == "self._state" and isinstance(e.comparators[0], ast.Constant) and isinstance(e.ops[0], (ast.Eq, ast.NotEq)):
+            accepting.add(e.comparators[0].value)
+    if len(accepting) != 1:
+        raise Abstain(f"request() compares self._state with {sorted(accepting)} before sending")
+    ACC = accepting.pop()
+    wts = [(n, c) for n, c in call_sites(g, lambda c: call_attr(c) == "writeTo")]
+    if len(wts) != 1:
+        raise Abstain(f"{len(wts)} writeTo calls in request()")
+    wn, wc = wts[0]
+    wst = g.node(wn).ast
+    if not (isinstance(wst, ast.Assign) and len(wst.targets) == 1 and isinstance(wst.targets[0], ast.Name)):
+        raise Abstain("the Deferred of writeTo is not bound to a local name")
+    D = wst.targets[0].id
+    nested = {n.name: n for n in f.body if isinstance(n, ast.FunctionDef)}
+    regs = [(n, c) for n, c in call_sites(g, lambda c: call_attr(c) in ("addCallbacks", "addErrback", "addBoth") and src(c.func.value) == D)]
+    ebs = []
+    for n, c in regs:
+        a = c.args[1] if call_attr(c) == "addCallbacks" and len(c.args) > 1 else (c.args[0] if call_attr(c) != "addCallbacks" and c.args else None)
+        if isinstance(a, ast.Name) and a.id in nested:
+            ebs.append((n, nested[a.id]))
+    if len(ebs) != 1:
+        raise Abstain(f"{len(ebs)} errbacks registered on the Deferred of writeTo")
+    reg_n, eb = ebs[0]
+    # (1) the asynchronous path: while the request is being transmitted the errback aborts the connection and leaves a refusing state
+    ge = ctx.cfg(eb)
+    transmitting = [v for st, v in _const_state_writes(f) if g.must_precede(g.ids_of(st), [wn]) is None]
+    if len(transmitting) != 1:
+        raise Abstain(f"states set before writeTo: {transmitting}")
+    TR = transmitting[0]
+    ok_e = resolver(ge, {"self._state": TR})
+    aborts = [n for n, c in named_calls(ge, "self.transport.abortConnection")] + [n for n, c in named_calls(ge, "self.transport.loseConnection") if False]
+    w = ge.path([ge.entry], [ge.exit], avoid=aborts, edge_ok=lambda a, b, l: l != "exc" and ok_e(a, b, l))
+    ctx.check(bool(aborts) and w is None, "failure/aborts-connection", q + ".<errback of writeTo> | state " + TR,
+              "request generation failing while the request is being transmitted does not abort the connection on every path: the half-written message stays on a connection that goes on",
+              witness=ge.describe(w) if aborts else "")
+    back = [st for st, v in _const_state_writes(eb) if v == ACC]
+    leaves = [st for st, v in _const_state_writes(eb) if v not in (ACC, TR)]
+    ctx.check(not back and bool(leaves), "failure/leaves-refusing-state", q + ".<errback of writeTo> | state after the failure",
+              f"after a failed generation the errback " + (f"returns the protocol to {ACC!r}" if back else f"leaves the state {TR!r}/unchanged") + ": request() would accept / the failure is not recorded")
+    # (2) the synchronous path agrees: an exception out of writeTo reaches the same errback (a failed Deferred under the same name, registration on every path) or aborts itself
+    hs = enclosing_try_handlers(f, wc)
+    if not hs:
+        raise Abstain("writeTo is not called inside a try statement")
+    for h in hs:
+        hq = q + f" | except {'/'.join(__import__('sa.props._lib_f', fromlist=['handler_names']).handler_names(h)) or '<bare>'} around writeTo"
+        hid = g.ids_of(h)
+        body_nodes = [i for st in h.body for i in g.ids_of(st)]
+        h_aborts = [n for n, c in named_calls(g, "self.transport.abortConnection") if n in body_nodes]
+        h_back = [st for st in h.body for s2 in ast.walk(st) if isinstance(s2, ast.Assign) and any(src(t) == "self._state" for t in s2.targets)
+                  and isinstance(s2.value, ast.Constant) and s2.value.value == ACC]
+        ctx.check(not h_back, "failure/leaves-refusing-state", hq + " | state",
+                  f"an exception raised by writeTo (a body producer raising from startProducing AFTER the head was written) puts the protocol back to {ACC!r}: the next request is "
+                  "written into the half-written message")
+        routed = [st for st in h.body if isinstance(st, ast.Assign) and any(isinstance(t, ast.Name) and t.id == D for t in st.targets) and isinstance(st.value, ast.Call)
+                  and call_name(st.value) in ("fail", "defer.fail")]
+        w = g.path(hid, [g.exit], avoid=[reg_n] + h_aborts, edge_ok=lambda a, b, l: l != "exc")
+        ctx.check((bool(routed) or bool(h_aborts)) and w is None, "failure/sync-agrees-with-async", hq,
+                  "an exception raised by writeTo does not take the failure path of an asynchronous failure (a failed Deferred handed to the same errback) nor aborts the connection itself: "
+                  "request() can return with the connection still usable", witness=g.describe(w))
+
+
+def _failure_evaluated(ctx):
+    """BOUNDED: protocol + Request interpreted; body producers that fail at several points; then a second request on the same protocol.  Oracle: once a byte of the failed request is
+    on the wire, no byte of another request may follow on that connection, and the caller is told RequestGenerationFailed"""
+    import sa.props.c23 as c23
+    w = c23._client_world(ctx)
+    q = Q + "HTTP11ClientProtocol.request"
+    UNK = w.env["UNKNOWN_LENGTH"]
+
+    class Body:
+        _sa_model = True
+
+        def __init__(self, length, pieces, how):
+            self.length, self.pieces, self.how, self.done, self.stopped = length, pieces, how, None, 0
+
+        def startProducing(self, consumer):
+            self.consumer = consumer
+            for p_ in self.pieces:
+                consumer.write(p_)
+            if self.how == "raises":
+                raise ModelRaised("RuntimeError", "startProducing failed")
+            self.done = MDeferred()
+            if self.how == "errback-now":
+                self.done.errback(MFailure(MExc("Boom")))
+            return self.done
+
+        def stopProducing(self):
+            self.stopped += 1
+
+        def pauseProducing(self):
+            return None
+
+        def resumeProducing(self):
+            return None
+    bad, n = [], 0
+    for length in (40, UNK):
+        for pieces in ((), (b"partial",)):
+            for how in ("raises", "errback-now", "errback-later"):
+                n += 1
+                p = w.new("HTTP11ClientProtocol")
+                tr = c23._ETransport()
+                p.makeConnection(tr)
+                body = Body(length, pieces, how)
+                r1 = w.new("Request", b"POST", b"/first", c23._EHeaders({b"Host": [b"x"]}), body, True)
+                label = f"POST with a {'chunked' if length is UNK else 'Content-Length: 40'} body whose producer writes {sum(map(len, pieces))} bytes and then {how}"
+                try:
+                    d = p.request(r1)
+                    if how == "errback-later" and body.done is not None:
+                        body.done.errback(MFailure(MExc("Boom")))
+                    box = []
+                    d.addBoth(lambda r, box=box: (box.append(r), None)[1])
+                    wrote = len(b"".join(tr.out))
+                    r2 = w.new("Request", b"GET", b"/second", c23._EHeaders({b"Host": [b"x"]}), None, True)
+                    d2 = p.request(r2)
+                    box2 = []
+                    d2.addBoth(lambda r, box2=box2: (box2.append(r), None)[1])
+                except ModelRaised as e:
+                    bad.append((label, f"request() raises {e.name}"))
+                    continue
+                after = b"".join(tr.out)[wrote:]
+                first = box[0].value.name if box and isinstance(box[0], MFailure) else ("pending" if not box else "a response")
+                second = box2[0].value.name if box2 and isinstance(box2[0], MFailure) else ("pending" if not box2 else "accepted")
+                if wrote and after:
+                    bad.append((label, f"{wrote} bytes of the failed request are on the wire and the next request's {len(after)} bytes ({after[:24]!r}...) follow them on the same connection "
+                                       f"(first request: {first}, connection {'aborted' if 'abort' in tr.log else 'NOT aborted'})"))
+                elif first != "RequestGenerationFailed":
+                    bad.append((label, f"the caller gets {first} instead of RequestGenerationFailed"))
+                elif wrote and "abort" not in tr.log:
+                    bad.append((label, f"the connection is not aborted although {wrote} bytes of the failed request were written (state {p._state})"))
+    msg = f"{bad[0][0]}: {bad[0][1]}; {len(bad)} of {n} failure histories wrong" if bad else ""
+    ctx.check(not bad, "failure/no-request-after-failed-generation", q + " | <producer failure points x second request>", msg, detail=f"{n} histories")
+
+
 def check(ctx):
-    sections = (("fe-validators", lambda c: structural(c, "validator/token-set", "validator/accepts-exactly (evaluated on all byte values in context)", _fe_validators, c)),
+    sections = (("s-generation-failure", lambda c: structural(c, "failure/aborts-connection", "failure/no-request-after-failed-generation (bounded)", _s_generation_failure, c)),
+                ("failure-evaluated", _failure_evaluated),
+                ("fe-validators", lambda c: structural(c, "validator/token-set", "validator/accepts-exactly (evaluated on all byte values in context)", _fe_validators, c)),
                 ("s-write-headers", lambda c: structural(c, "sink/validated-at-sink", "sink/head-bytes + sink/refused-before-write-evaluated (bounded)", _s_write_headers, c)),
                 ("s-framing", lambda c: structural(c, "framing/pairing", "framing/head-matches-encoder (bounded)", _s_framing, c)),
                 ("fe-empty-write", lambda c: structural(c, "chunked/empty-write-guard", "chunked/empty-write-not-encoded (bounded)", _fe_empty_write, c)),
